@@ -118,9 +118,10 @@ func (i *Interpreter) evaluateAsyncExpr(expr AsyncExpr, env *Environment) (inter
 	// Create a new Future to represent the pending result
 	future := NewFuture()
 
-	// Create a child environment for the async block
-	// This captures the current scope for use in the goroutine
-	asyncEnv := NewChildEnvironment(env)
+	// The async block runs on a snapshot of the current scope (as compiled
+	// async blocks do): the goroutine must not read the parent's environment
+	// while the parent goes on declaring and assigning variables.
+	asyncEnv := NewChildEnvironment(env.Snapshot())
 
 	// Execute the async block in a separate goroutine
 	go func() {
